@@ -75,7 +75,16 @@ func OCISpec(t *rapid.T, label string, o OCIOpts) *oci.Spec {
 				lim := int64(1 << 30)
 				s.Linux.Resources.Memory = &oci.LinuxMemory{Limit: &lim}
 			}
-			switch rapid.IntRange(0, 2).Draw(t, label+"lrules") {
+			switch rapid.IntRange(0, 3).Draw(t, label+"lrules") {
+			case 3:
+				// runc-style defaults: wildcard rules, with only the major, only the minor or neither number given
+				maj := rapid.SampledFrom(int64Extremes).Draw(t, label+"lruleMajor")
+				min := int64(3)
+				typ := rapid.SampledFrom([]string{"c", "b", "a", ""}).Draw(t, label+"lruleType")
+				s.Linux.Resources.Devices = []oci.LinuxDeviceCgroup{{Allow: false, Access: "rwm"},
+					{Allow: true, Type: typ, Major: &maj, Access: rapid.SampledFrom([]string{"rwm", "rw", ""}).Draw(t, label+"lruleAccess")},
+					{Allow: true, Type: typ, Minor: &min, Access: "rwm"},
+					{Allow: true, Type: typ, Access: "m"}}
 			case 1:
 				s.Linux.Resources.Devices = []oci.LinuxDeviceCgroup{{Allow: false, Access: "rwm"}}
 			case 2:
